@@ -217,12 +217,19 @@ StepRow(mm0, d) ==
       \* rounds to nothing is not a disagreement: the loss is then taken as reported in full
       negl == s.superficial /\ ~implSup /\ ~s.manual /\ RLe(RAbs(s.sfl), Eps)
       sup == s.superficial /\ ~negl
+      \* a wrong figure that also breaks the conservation identity ON THE FIGURES REPORTED (C03) is reported as that
+      mmL == [mm EXCEPT !.k = @ + 1, !.L = LogInto(mm.L, d), !.pend = {},
+                        !.AL = AccStep(mm.AL, mm.L, te, IF d.hasGain THEN D(d.gain) ELSE RZero), !.fL = @ \/ (d.hasSfl /\ d.over)]
+      ChkA(cond, detail, rest) ==
+        IF cond THEN rest
+        ELSE IF s.adj = {} /\ ~ConserveOK(mmL) THEN FailV("conserve", "gains so far differ from proceeds - costs + roc + cost base held (" \o detail \o ")")
+        ELSE FailV("arith", detail)
   IN
-  Chk(RClose(D(d.sh), S2.sh[a], Eps), "arith", "share balance " \o RStr(D(d.sh)) \o " expected " \o RStr(S2.sh[a]),
-  Chk(RClose(D(d.all), S2.all, Eps), "arith", "all-affiliate balance " \o RStr(D(d.all)) \o " expected " \o RStr(S2.all),
-  Chk(mm.REG[a] \/ RClose(D(d.acb), S2.acb[a], Eps), "arith", "cost base " \o RStr(D(d.acb)) \o " expected " \o RStr(S2.acb[a]),
-  Chk(d.hasGain = s.hasGain, "arith", "capital gain present/absent",
-  Chk(~s.hasGain \/ RClose(rawI, s.raw, Eps), "arith", "gain before denial " \o RStr(rawI) \o " expected " \o RStr(s.raw),
+  ChkA(RClose(D(d.sh), S2.sh[a], Eps), "share balance " \o RStr(D(d.sh)) \o " expected " \o RStr(S2.sh[a]),
+  ChkA(RClose(D(d.all), S2.all, Eps), "all-affiliate balance " \o RStr(D(d.all)) \o " expected " \o RStr(S2.all),
+  ChkA(mm.REG[a] \/ RClose(D(d.acb), S2.acb[a], Eps), "cost base " \o RStr(D(d.acb)) \o " expected " \o RStr(S2.acb[a]),
+  ChkA(d.hasGain = s.hasGain, "capital gain present/absent",
+  ChkA(~s.hasGain \/ RClose(rawI, s.raw, Eps), "gain before denial " \o RStr(rawI) \o " expected " \o RStr(s.raw),
   IF implSup # sup
   THEN (IF Borderline(mm, i) THEN Ambig("loss decision within rounding noise")
         ELSE FailV("sfl", IF s.superficial THEN "loss is superficial (ratio " \o RStr(s.ratio) \o ") but was reported in full"
